@@ -66,6 +66,17 @@ def run(prop, tier, seed):
                     closed, axioms = parse_assumptions(assum_text)
                 obligations = cone_stats["qed"]
                 discharged = cone_stats["qed"]
+                if tier == "thorough" and prop.prop_file:
+                    # independent re-check of the compiled cone (and the axioms it relies on) by coqchk
+                    mod = "GF." + prop.prop_file[:-2].replace("/", ".")
+                    t1 = time.time()
+                    rc, out = sh(["coqchk", "-silent", "-o", "-R", ".", "GF", mod], cwd=COQ, timeout=3000)
+                    log["coqchk_s"] = round(time.time() - t1, 1)
+                    log["coqchk_summary"] = out[-900:]
+                    if rc != 0:
+                        raise Broken("coqchk rejects the compiled cone of " + mod, out[-2000:])
+                    m = re.search(r"\* Axioms:\s*(.*?)\n\s*\n", out, re.S)
+                    log["coqchk_axioms"] = (m.group(1).strip() if m else "?")
                 for f in prop.static_facts(log):
                     pass
             except Broken as b:
